@@ -169,7 +169,7 @@ class MessagePackDocument(HierDictDocument):
             except ValueError as e:
                 # the arguments can hold pieces of the request (ExtraData)
                 raise MessagePackDecodeError(' '.join(a if isinstance(a, str)
-                                              else repr(a) for a in e.args))
+                          and a.isprintable() else repr(a) for a in e.args))
 
     def gen_method_request_string(self, ctx):
         """Uses information in context object to return a method_request_string.
@@ -240,7 +240,8 @@ class MessagePackRpc(MessagePackDocument):
 
 
         except ValueError as e:
-            raise MessagePackDecodeError(''.join(str(a) for a in e.args))
+            raise MessagePackDecodeError(' '.join(a if isinstance(a, str)
+                          and a.isprintable() else repr(a) for a in e.args))
 
         try:
             len(ctx.in_document)
